@@ -3,7 +3,10 @@
 (* C18 -- the pipeline operators of HttpGate wrapped into a transition     *)
 (* system: one initial state per case of the request domain                *)
 (*   Methods x Templates x spelling sequences (length <= MaxSpell) x       *)
-(*   {write operations enabled, disabled}                                  *)
+(*   {write operations enabled, disabled}          (default headers)       *)
+(*   Methods x Templates x header classes (Accept x Content-Type x         *)
+(*   X-HTTP-Method-Override x body present) x {enabled, disabled}          *)
+(*                                          (documented spelling)          *)
 (* and one transition per pipeline stage (outer router, StripPrefix,       *)
 (* validator, ConfigMiddleware, inner router, wrapper, handler).  TLC      *)
 (* checks the property layer on every terminal state and prints every case *)
@@ -23,14 +26,18 @@ SpSeqs ==
 
 PathOf(c) == SpellAll(BasePath(Tpl(c.t)), c.sps)
 
+TplNames == {Templates[i].name : i \in DOMAIN Templates}
+\* every spelling sequence with the default headers, and (HdrCross) every header class with the
+\* documented spelling
 Cases ==
-    {c \in [m : Methods, t : {Templates[i].name : i \in DOMAIN Templates}, sps : SpSeqs, w : BOOLEAN] :
-        ApplicableAll(BasePath(Tpl(c.t)), c.sps)}
+    {c \in [m : Methods, t : TplNames, sps : SpSeqs, w : BOOLEAN, h : {DefaultHdr}] :
+        ApplicableAll(BasePath(Tpl(c.t)), c.sps)} \cup
+    (IF HdrCross THEN [m : Methods, t : TplNames, sps : {<<"exact">>}, w : BOOLEAN, h : HdrClasses] ELSE {})
 
 Init ==
     /\ cs \in Cases
     /\ stage = "outer"
-    /\ rq = MkRq(cs.m, PathOf(cs), cs.w)
+    /\ rq = MkRq(cs.m, PathOf(cs), cs.w, cs.h)
     /\ resp = NoResp
 
 Next ==
@@ -44,7 +51,7 @@ Spec == Init /\ [][Next]_vars
 GateInv == stage = "done" => C18_Gate(cs.w, resp.effect)
 LiveInv == stage = "done" => C18_Live(cs.m, cs.t, cs.sps, resp.effect)
 \* one decision per request (findOperation ranges over a Go map)
-DetInv == stage = "outer" => Cardinality(Serve(cs.m, PathOf(cs), cs.w)) = 1
+DetInv == stage = "outer" => Cardinality(Serve(cs.m, PathOf(cs), cs.w, cs.h)) = 1
 \* the gate and the dispatcher agree: whatever reaches a handler was let through by the
 \* middleware for that very operation
 AgreeInv == stage = "handler" =>
@@ -53,8 +60,8 @@ AgreeInv == stage = "handler" =>
 \* generation -----------------------------------------------------------------------------
 EmitInv ==
     stage = "outer" =>
-        PrintT(<<"CASE", ToJson([m |-> cs.m, t |-> cs.t, sps |-> cs.sps, w |-> cs.w,
+        PrintT(<<"CASE", ToJson([m |-> cs.m, t |-> cs.t, sps |-> cs.sps, w |-> cs.w, h |-> cs.h,
                                  target |-> Target(PathOf(cs)),
                                  raw |-> RawSegs(PathOf(cs)), dec |-> DecSegs(PathOf(cs)),
-                                 exp |-> SetToSeq(Serve(cs.m, PathOf(cs), cs.w))])>>)
+                                 exp |-> SetToSeq(Serve(cs.m, PathOf(cs), cs.w, cs.h))])>>)
 =============================================================================
